@@ -449,6 +449,9 @@ package yang
 //@   trusted
 //@   ensures result == nodeStmt(recv)
 //@   pure
+//@ func (Node).Exts
+//@   trusted
+//@   pure
 //@ func (*Statement).Location props C16 C01
 //@   requires s != nil
 //@   pure
@@ -678,3 +681,31 @@ package yang
 //@     invariant (exists k string :: visited(k) && old(e.Dir[k]) != nil) ==> len(e.Errors) > old(len(e.Errors))
 //@   loop 2
 //@     modifies contents(v.Extra)
+//
+// FixChoice, first loop: every direct child of a choice becomes a case. A
+// shorthand member is wrapped in a fresh case entry of the same name that
+// points back at the choice, holds the member as its only child, and the
+// member points at its case. (The recursion below e -- rpc input/output
+// included -- is exercised by the bounded tree walker; no termination measure
+// is claimed because the function rewrites the tree it walks.)
+//@ pred kidsOK(x *Entry) = (forall k string :: has(x.Dir, k) ==> x.Dir[k] != nil && x.Dir[k].Node != nil)
+//@     && (forall k1 string, k2 string :: k1 != k2 && has(x.Dir, k1) && has(x.Dir, k2) ==> x.Dir[k1] != x.Dir[k2])
+//@ func (*Entry).FixChoice props C04
+//@   requires e != nil && (forall x *Entry :: kidsOK(x))
+//@   ensures  (forall x *Entry :: kidsOK(x)) && (forall x *Entry :: allocated(x) ==> x.RPC == old(x.RPC) && x.Dir == old(x.Dir))
+//@   safe
+//@   loop 1
+//@     modifies contents(e.Dir), Entry.Parent
+//@     invariant e.Dir == loopentry(e.Dir) && e.Kind == ChoiceEntry && (forall x *Entry :: kidsOK(x)) && (forall x *Entry :: allocated(x) ==> x.RPC == old(x.RPC) && x.Dir == old(x.Dir))
+//@     invariant forall k string :: has(e.Dir, k) == loopentry(has(e.Dir, k))
+//@     invariant forall k string :: visited(k) ==> has(e.Dir, k)
+//@     invariant forall k string :: !visited(k) ==> e.Dir[k] == loopentry(e.Dir[k]) && (has(e.Dir, k) ==> e.Dir[k].Kind == loopentry(e.Dir[k].Kind))
+//@     invariant forall k string :: visited(k) ==> e.Dir[k].Kind == CaseEntry
+//@     invariant forall k string :: visited(k) && loopentry(e.Dir[k].Kind) == CaseEntry ==> e.Dir[k] == loopentry(e.Dir[k])
+//@     invariant forall k string :: visited(k) && loopentry(e.Dir[k].Kind) != CaseEntry ==> loopfresh(e.Dir[k]) && e.Dir[k].Parent == e && e.Dir[k].Name == loopentry(e.Dir[k].Name)
+//@     invariant forall k string :: visited(k) && loopentry(e.Dir[k].Kind) != CaseEntry ==> e.Dir[k].Dir != nil && loopfresh(e.Dir[k].Dir) && e.Dir[k].Dir[loopentry(e.Dir[k].Name)] == loopentry(e.Dir[k])
+//@     invariant forall k string :: visited(k) && loopentry(e.Dir[k].Kind) != CaseEntry ==> loopentry(e.Dir[k]).Parent == e.Dir[k]
+//@     invariant forall k string :: loopentry(has(e.Dir, k)) ==> !loopfresh(loopentry(e.Dir[k]))
+//@     invariant forall k1 string, k2 string :: k1 != k2 && loopentry(has(e.Dir, k1)) && loopentry(has(e.Dir, k2)) ==> loopentry(e.Dir[k1]) != loopentry(e.Dir[k2])
+//@   loop 2
+//@     invariant (forall x *Entry :: kidsOK(x)) && (forall x *Entry :: allocated(x) ==> x.RPC == old(x.RPC) && x.Dir == old(x.Dir))
